@@ -88,3 +88,20 @@ def register(reg):
                         modifies=['self.g_notified', 'self.g_header_sent']),
         },
         shard_depth=6, feas_timeout_ms=250, props=['C07'])
+
+    # ---- address_status: which script hashes are re-checked on a height change ------------------------------------------------
+    # mp_nonempty(x): the mempool currently holds a transaction touching x (MemPool.transaction_summaries(x) is non-empty)
+    reg.specfun('mp_nonempty', [KBytes], Bool)
+    ts = reg.contracts['ext:MemPool.transaction_summaries']
+    ts.ensures = list(ts.ensures) + [('nonempty-iff', '(len(result) > 0) == mp_nonempty(hashX)')]
+    for name in ('address_status', 'subscription_address_status'):
+        c = reg.contracts[EX + '.' + name]
+        c.ensures.append(('others-untouched', 'forall(lambda y=Bytes: implies(y != hashX, (y in self.mempool_statuses) == (y in old(self.mempool_statuses)) '
+                                              'and implies(y in self.mempool_statuses, lookup(self.mempool_statuses, y) == lookup(old(self.mempool_statuses), y))))'))
+        if 'C07' not in c.props:
+            c.props.append('C07')
+    a = reg.contracts[EX + '.address_status']
+    # a script hash with ANY mempool transaction is tracked (its status depends on the confirmation state of other
+    # transactions' inputs, so it must be re-computed on every height change), with the status just computed; one without is not
+    a.ensures.append(('tracked-iff-it-has-mempool-transactions', '(hashX in self.mempool_statuses) == mp_nonempty(hashX)'))
+    a.ensures.append(('tracked-with-the-status-returned', 'implies(hashX in self.mempool_statuses, lookup(self.mempool_statuses, hashX) == result)'))
